@@ -70,6 +70,10 @@ func pwCands(w *world.World, pid string, others []string, rich bool) []cand {
 			cs = append(cs, cand{"pw:stored-hash", r.Password})
 		}
 		cs = append(cs, cand{"pw:4KiB", bigValue})
+		// near misses of the right password: wrapped in whitespace, another letter case
+		if p, ok := curPassword(w, pid); ok && p != "" {
+			cs = append(cs, cand{"pw:cur+trailing-space", p + " "}, cand{"pw:tab+cur+newline", "\t" + p + "\n"}, cand{"pw:cur-other-case", swapCase(p)})
+		}
 	}
 	return dedupe(cs)
 }
